@@ -404,10 +404,31 @@ def clean(ctx, prog):
     cb = prog.one(r"^router::logs::DataLog::clean$")
     wr = [bb for bb, t in cb.calls() if re.search(r"router::waiters::Waiters::<T>::remove$", callee_path(t))]
     it = [bb for bb, t in cb.calls() if re.search(r"slab::Slab::<T>::iter_mut$", callee_path(t))]
-    if wr and it:
-        ctx.ok(rule, cb.id, "iterates all filters (native.iter_mut) and calls Waiters::remove(id)")
+
+    def removes_all(body):
+        """the function removes *every* entry of the id from one waiter queue: either with retain,
+        or with a position()/remove loop that goes back to position() without advancing to the
+        next filter (a single `if let Some(i) = position(..) { remove(i) }` leaves duplicates behind:
+        a plain and a $share subscription on the same topic share one queue)"""
+        calls = list(body.calls())
+        if any(re.search(r"VecDeque::<T, A>::retain(_mut)?$", callee_path(t)) for _, t in calls):
+            return True
+        rem = [bb for bb, t in calls if re.search(r"VecDeque::<T, A>::(swap_remove_back|swap_remove_front|remove)$", callee_path(t)) and not body.is_cleanup(bb)]
+        pos = [bb for bb, t in calls if re.search(r"Iterator::position$", callee_path(t)) and not body.is_cleanup(bb)]
+        outer = [bb for bb, t in calls if re.search(r"slab::(IterMut|Iter)<.*> as std::iter::Iterator>::next$", callee_path(t))]
+        return bool(rem and pos and any(p in reachable_after(body, [r], avoid_blocks=outer) for r in rem for p in pos))
+    purge = None
+    if wr:
+        wbody = prog.one(r"^router::waiters::Waiters::<T>::remove$")
+        purge = removes_all(wbody)
+        where = wbody
     else:
-        ctx.violation(rule, cb.id, "purge shape", "DataLog::clean no longer visits every filter's waiters", site=cb.fn_loc())
+        purge = removes_all(cb)
+        where = cb
+    if it and purge:
+        ctx.ok(rule, cb.id, "visits every filter (native.iter_mut) and removes every parked request of the id (%s)" % where.id.rsplit("::", 2)[-2])
+    else:
+        ctx.violation(rule, cb.id, "purge shape", "DataLog::clean no longer removes every parked request of the departing id from every filter's waiters: a stale waiter would later name a removed connection", site=cb.fn_loc())
 
 
 def pause(ctx, prog, cg):
